@@ -1,0 +1,17 @@
+//go:build verif
+
+package trie
+
+// Read-only exports of the word-level bit tricks for the C20 correspondence check.
+
+// VerifSelect64 is select64 as compiled for this platform (BMI2 assembly or the broadword fallback).
+func VerifSelect64(x uint64, k int64) int64 { return select64(x, k) }
+
+// VerifSelect64Broadword is the portable select-in-word.
+func VerifSelect64Broadword(x uint64, k int64) int64 { return select64Broadword(x, k) }
+
+// VerifPopcountBlock is popcountBlock.
+func VerifPopcountBlock(bs []uint64, off, nbits uint32) uint32 { return popcountBlock(bs, off, nbits) }
+
+// VerifSelectInByteLut returns a copy of the table filled by init().
+func VerifSelectInByteLut() [256][8]uint8 { return selectInByteLut }
